@@ -64,7 +64,7 @@ class LearnableThermometerThresholding(nn.Module):
 
         if self._frozen:
             # Hard thermometer encoding
-            outputs = (x > thresholds).float()
+            outputs = (x > thresholds).to(torch.result_type(x, thresholds))   # the dtype the soft code has
         else:
             # Soft, differentiable approximation
             outputs = torch.tanh(self.slope * (x - thresholds))
